@@ -436,6 +436,8 @@ def _construct_dsdl_definitions_from_namespaces(
             raise _error.InvalidDefinitionError(
                 f"The file is not located under its root namespace directory {root_namespace_path}", file_path
             ) from None
+        except (RuntimeError, OSError) as ex:  # A symbolic link that leads nowhere but back to itself.
+            raise _error.InvalidDefinitionError(f"The file cannot be resolved: {ex}", file_path) from None
         output.append(_dsdl_definition.DSDLDefinition(file_path, root_namespace_path))
     return dsdl_file_sort(output)
 
